@@ -8,6 +8,10 @@ label.  A fault plan {k: kind} decides what happens at point k:
   kill_before  os._exit(137) before the call (no cleanup, no HDF5 flush)
   kill_after   os._exit(137) right after the call returned
   intr_before  raise KeyboardInterrupt instead of performing the call (Ctrl-C / SIGINT delivered at this point)
+  err_persist  like err_before, and every later fault point that writes, creates, flushes or closes fails the same way
+               (a disk that is full stays full: clean-up code fails, too; rename and unlink keep working);
+               err_persist_w: the same, but closing files keeps working as well
+  err_burst<n> this call and the next n-1 intercepted calls fail, then the device works again
 """
 import errno
 import os
@@ -43,6 +47,19 @@ class FaultSeam:
         self.n += 1
         self.labels.append(label)
         kind = self.plan.get(k)
+        if kind is not None and kind.startswith("err_burst"):
+            # this call and the following n-1 intercepted calls fail (an error in a block followed by an error in its clean-up)
+            self.burst = int(kind[len("err_burst"):] or 2)
+        if getattr(self, "burst", 0) > 0:
+            self.burst -= 1
+            kind = "err_before"
+        if kind in ("err_persist", "err_persist_w"):
+            self.persist = kind
+        if getattr(self, "persist", None) and kind in (None, "err_persist", "err_persist_w"):
+            # (renaming or removing a file needs no space: those keep working on a full disk; in the _w variant closing
+            #  a file - nothing left to flush - works as well)
+            spared = ("path.",) if self.persist == "err_persist" else ("path.", "file.close")
+            kind = "err_before" if (kind is not None or not label.startswith(spared)) else None
         if self.on_point is not None:
             self.on_point(k, label)
         if kind == "kill_before":
